@@ -472,6 +472,26 @@ def overlaps(check, prog):
         check.require(ok, 'K4-all-pairs', 'Spheres.' + m,
                       'every pair i < j is visited (j in range(i+1, n))', loc,
                       fail_detail='loops: %s' % [show(l['iter'])[:80] for l in lps])
+        # ... and the pair that is measured is (member i, member j): the first
+        # sphere is the element of the outer loop, the second is indexed by the
+        # inner loop variable (not by i + 1, the list neighbour)
+        if ok and via is None:
+            dcs = [c for c in it.calls if c['name'] == cd]
+            okm = bool(dcs)
+            for c in dcs:
+                owners = [a[1] for a in c['args'] if a[0] == 'attr' and a[2] == 'center']
+                okm = okm and len(owners) == 2
+                if not okm:
+                    break
+                first = [o for o in owners if o[0] == 'elem' and o[1] == sc]
+                second = [o for o in owners if o[0] == 'idx' and o[1] == sc and
+                          o[2][0] == 'elem' and o[2][1] == inner['iter']]
+                okm = len(first) == 1 and len(second) == 1
+            check.require(okm, 'K4-pair-members', 'Spheres.' + m,
+                          'the distance is taken between member i and member j of '
+                          'the pair being visited', loc,
+                          fail_detail='distance between %s' % [
+                              [show(a)[:70] for a in c['args']] for c in dcs][:1])
         info[m] = (it, res, own_lps, loc)
     # overlaps: condition of the append
     it, res, lps, loc = info['overlaps']
